@@ -147,6 +147,25 @@ def path_sessions(tier, rng):
     return out
 
 
+def pipelined_sessions():
+    """A request is suspended in its j-th backend query when CWD / CDUP arrives and is handled at once: the request still checks,
+    addresses and operates on one and the same location - its own."""
+    out = []
+    reqs = ["DELE /d/g", "DELE f", "MLST /f", "MLST d/g", "MKD /d/n", "MKD n", "RMD /d/e", "RMD d/e", "RNFR /f", "CWD d", "CWD /d/e"]
+    moves = ["CWD /d", "CWD /d/e", "CWD /", "CDUP", "CWD d", "CWD /f", "CWD /nowhere", "CWD e"]
+    login = [["connect", 1], ["send", 1, "USER u1"], ["send", 1, "PASS pw1"]]
+    tail = [["release", 1], ["send", 1, "PWD"], ["send", 1, "MLST /f"], ["send", 1, "MLST /d/g"], ["send", 1, "MLST /d/e"], ["send", 1, "MLST /d/n"], ["send", 1, "MLST n"]]
+    for start in (None, "CWD d"):
+        for req in reqs:
+            for mv in moves:
+                for j in (1, 2):
+                    out.append(login + ([["send", 1, start]] if start else []) + [["gate", 1, None, j], ["send", 1, req], ["send", 1, mv]] + tail)
+        for mv in moves:
+            out.append(login + ([["send", 1, start]] if start else []) + [["send", 1, "RNFR /f"], ["gate", 1, None, 1], ["send", 1, "RNTO /d/y"], ["send", 1, mv]]
+                       + tail + [["send", 1, "MLST /d/y"]])
+    return out
+
+
 def run(tier, seed):
     chk = report.Check("C02", tier, seed)
     rng = random.Random(seed)
@@ -166,6 +185,9 @@ def run(tier, seed):
     scheds = path_sessions(tier, rng)
     for b in (["memory"] if tier == "quick" else ["memory", "path"]):
         corecheck.validate(chk, gen.std_cfg(ns=1, backend=b), gen.STD_TREE, scheds, label="paths:" + b)
+    ps = pipelined_sessions()
+    corecheck.validate(chk, gen.std_cfg(ns=1), gen.STD_TREE, ps if tier != "quick" else ps[::2], label="pipelined")
+    scheds = scheds + ps
     chk.cov["rule"] = ("function level: all path arguments of <= %d segments over a segment alphabet (names, '..', '.', empty, dot-prefixed, "
                        "blank, non-ASCII, backslash / drive-like / UNC-like forms) x prefixes '', '/', '//', '///' x working directories "
                        "x base directories (absolute, relative, nested, POSIX and Windows flavours), each pair judged by PathModel.tla "
